@@ -132,9 +132,9 @@ func checkC07(c *Ctx) {
 			}
 			return true
 		})
-		masked = canonDiag(masked)
-		c.R.Check(masked == canonDiag(specT1), "C07.c", "transpileOne", "closed-form", c.Pos(f.M.Fset, fn.Decl.Pos()), whyT1+": "+masked,
-			"closed form is not the specification term ("+whyT1+"); "+diffHint(masked, canonDiag(specT1)))
+		masked = f.canon(masked)
+		c.R.Check(masked == f.canon(specT1), "C07.c", "transpileOne", "closed-form", c.Pos(f.M.Fset, fn.Decl.Pos()), whyT1+": "+masked,
+			"closed form is not the specification term ("+whyT1+"); "+diffHint(masked, f.canon(specT1)))
 	} else {
 		c.R.Undecided("C07.c", "transpileOne", "definition", f.M.Dir, "anchor function not found (renamed or removed): "+whyT1)
 	}
